@@ -30,6 +30,23 @@ def run_chunk(args):
         job = queue.pop(0)
         cls, cfg = job["cls"], job["cfg"]
         hist = job.get("hist")
+        if job.get("float"):
+            # C13: histories over two double variables, judged by candidate brute force + a plain Solver run side by side
+            if "funi" not in res:
+                res["funi"] = L.FloatUniverse()
+            if hist is None:
+                hist = L.gen_float_history(rng, job["len"])
+            res["hist"] += 1
+            res["clsdist"][cls] = res["clsdist"].get(cls, 0) + 1
+            res["ops"] += len(hist)
+            for d in hist:
+                res["opdist"][d["op"]] = res["opdist"].get(d["op"], 0) + 1
+            fails, _o = L.run_float_history(res["funi"], cls, cfg, hist)
+            if fails:
+                res["fails"].append({"cls": cls, "cfg": cfg, "hist": hist, "float": True, "fails": [list(f) for f in fails[:3]]})
+            if len(hist) >= 3:
+                res["distinct"].append(common.digest([cls, cfg, hist]))
+            continue
         if hist is None:
             gen = L.gen_combine_history if job.get("combine") else L.gen_struct_history if job.get("struct") else \
                 L.gen_directed if job.get("gen", {}).get("shape") else L.gen_history
@@ -123,6 +140,7 @@ def run_chunk(args):
         except Exception as e:  # noqa: BLE001
             res["driver_error"] = "%s: %s" % (type(e).__name__, str(e)[:300])
     res["time"] = round(time.time() - t0, 2)
+    res.pop("funi", None)
     return res
 
 
@@ -207,11 +225,54 @@ def report_failures(ctx, prop, fails, max_report=4):
                        "observed": [list(o) if isinstance(o, tuple) else o for o in outs]})
 
 
+def report_float_failures(ctx, prop, fails, max_report=4):
+    """float histories (C13): reproduce twice, shrink, report"""
+    from . import solverlib as L
+    funi = L.FloatUniverse()
+    seen = set()
+    for f in fails:
+        if len(seen) >= max_report:
+            break
+        cls, cfg, hist = f["cls"], f["cfg"], f["hist"]
+        k, kind, why = f["fails"][0]
+        if not all(any(kk == kind for _, kk, _ in L.run_float_history(funi, cls, cfg, hist)[0]) for _ in range(2)):
+            ctx.notes.append("non-reproducible float failure dropped: %s %s" % (kind, why))
+            continue
+        sh = L.shrink_float(funi, cls, cfg, hist, kind)
+        f3, outs = L.run_float_history(funi, cls, cfg, sh)
+        hit = [(i, kk, w) for i, kk, w in f3 if kk == kind] or [(k, kind, why)]
+        if not [1 for i, kk, w in f3 if kk == kind]:
+            sh = hist
+        i, kk, w = hit[0]
+        sig = "%s/%s/%s/%s[float]" % (prop, cls, sh[i]["op"], kk)
+        if sig in seen:
+            continue
+        seen.add(sig)
+        ctx.violation(sig, "%s %s: %s" % (cls, json.dumps(sh[i]), w),
+                      {"cls": cls, "cfg": cfg, "history": sh, "float": True, "failing_call": i, "kind": kk, "explanation": w,
+                       "observed": [str(o)[:200] for o in outs]})
+
+
 def replay_history(prop, obj):
     from . import solverlib as L
     r = obj["replay"]
     uni = L.Universe()
     bad = 0
+    if r.get("float"):
+        funi = L.FloatUniverse()
+        for attempt in range(2):
+            fails, outs = L.run_float_history(funi, r["cls"], r["cfg"], r["history"])
+            bad += bool(fails)
+            if attempt == 0:
+                for d, o in zip(r["history"], outs):
+                    print("  %s -> %s" % (json.dumps(d), str(o)[:200]))
+                for k, kind, why in fails:
+                    print("FAILS at call %d: %s: %s" % (k, kind, why))
+        if bad == 2:
+            print("VIOLATION property=%s replay=(given)" % prop)
+            return 1
+        print("no failure on the current tree" if bad == 0 else "failure not reproducible (1 of 2 runs)")
+        return 0
     if r.get("twin"):
         # two solver tuples side by side (restored copy vs original / without the downsize calls), answers compared
         for attempt in range(2):
